@@ -44,6 +44,14 @@ func init() {
 		}
 		return args[1].(int)
 	})
+	nd("LockHeld", func(m *Machine, fr *frame, args []value) value {
+		itf := args[0].(iface)
+		p, ok := itf.v.(*value)
+		if !ok {
+			panic(unsupported{"nd.LockHeld needs a *sync.Mutex"})
+		}
+		return m.locksHeld[p] > 0
+	})
 	nd("Note", func(m *Machine, fr *frame, args []value) value { m.note(args[0].(string)); return nil })
 
 	for k, v := range map[string]externalFn{
